@@ -51,8 +51,11 @@ Types == { [id |-> "int",    size |-> 4,  al |-> 4, arr |-> FALSE],
            [id |-> "char3",  size |-> 3,  al |-> 1, arr |-> TRUE],
            [id |-> "char20", size |-> 20, al |-> 1, arr |-> TRUE] }
 TInt == CHOOSE t \in Types : t.id = "int"
-(* psABI: an array variable of at least 16 bytes is aligned to 16 *)
+(* psABI: an array variable of at least 16 bytes is aligned to 16 (gcc does not
+   apply this to thread-local arrays, so Level A only demands the natural
+   alignment there; more alignment than demanded is always acceptable) *)
 VarAlign(t) == IF t.arr /\ t.size >= 16 THEN Mx(16, t.al) ELSE t.al
+VarAlignA(t, thr) == IF thr THEN t.al ELSE VarAlign(t)
 
 (* Events.  One record shape for all kinds.
    k = "obj":  ev in T   `ty x;`            D   `ty x = v;`      E `extern ty x;`
@@ -110,7 +113,7 @@ RowObjA(s) ==
            sect == IF tls THEN (IF HasInit(s) THEN "tdata" ELSE "tbss")
                    ELSE IF HasInit(s) THEN "data"
                    ELSE IF fcommon /\ ~int THEN "common" ELSE "bss"
-       IN DefRow(IF int THEN "LOCAL" ELSE "GLOBAL", IF tls THEN "TLS" ELSE "OBJECT", sect, ty.size, VarAlign(ty))
+       IN DefRow(IF int THEN "LOCAL" ELSE "GLOBAL", IF tls THEN "TLS" ELSE "OBJECT", sect, ty.size, VarAlignA(ty, tls))
 
 (* objects with no linkage and static storage duration (6.2.2p6, 6.2.4p3): one
    anonymous local object per block-scope `static` declaration *)
@@ -306,7 +309,12 @@ Spec == Init /\ [][Next]_vars
 
 ----------------------------------------------------------------------------
 (* Level I = Level A *)
-ObjRefines == Mode = "obj" => (RowObjI = RowObjA(es) /\ AnonI = AnonA(es))
+(* alignment: exactly the demanded one for a common symbol (it is the symbol's
+   value), otherwise any multiple of it *)
+RowsAgree(i, a) == /\ [i EXCEPT !.align = 0] = [a EXCEPT !.align = 0]
+                   /\ a.sect = "common" => i.align = a.align
+                   /\ a.st = "def" => i.align % a.align = 0
+ObjRefines == Mode = "obj" => (RowsAgree(RowObjI, RowObjA(es)) /\ AnonI = AnonA(es))
 FnRefines  == JudgedFn(es) => \A n \in FNames(es) : KnownInlineExt(es, n) \/ Match(RowFnI(n), RowFnA(es, n))
 (* sanity of Level A: a symbol is common only under -fcommon, never when
    initialised, internal or thread-local; internal <=> LOCAL *)
